@@ -17,6 +17,9 @@ import (
 //	reverse             descending
 //	rotate:<r>          sorted, rotated left by r
 //	shuffle:<seed>      sorted, then a deterministic shuffle
+//	indep:<seed>        every single enumeration (each call of Keys, Values or KVs) gets its own
+//	                    shuffle, as two range loops over one Go map may: Keys d and Values d need
+//	                    not correspond position by position
 //
 // It returns the path of an overlay file for `go build -overlay`.
 func DictShim(snapshot, scratch string) (string, error) {
@@ -45,6 +48,8 @@ func DictShim(snapshot, scratch string) (string, error) {
 
 func verifMode() string { return verifos.Getenv("VERIF_DICT_ORDER") }
 
+var verifCalls uint64
+
 func verifPermute[T any](in []T) []T {
 	mode := verifMode()
 	n := len(in)
@@ -61,8 +66,12 @@ func verifPermute[T any](in []T) []T {
 		for i := range out {
 			out[i] = in[(i+r)%max(n, 1)]
 		}
-	case verifstrings.HasPrefix(mode, "shuffle:"):
-		seed, _ := verifstrconv.ParseUint(mode[len("shuffle:"):], 10, 64)
+	case verifstrings.HasPrefix(mode, "shuffle:"), verifstrings.HasPrefix(mode, "indep:"):
+		seed, _ := verifstrconv.ParseUint(mode[verifstrings.IndexByte(mode, ':')+1:], 10, 64)
+		if verifstrings.HasPrefix(mode, "indep:") {
+			verifCalls++
+			seed ^= verifCalls * 0x9E3779B97F4A7C15
+		}
 		x := seed*6364136223846793005 + 1442695040888963407
 		for i := n - 1; i > 0; i-- {
 			x ^= x << 13
